@@ -40,6 +40,7 @@ import (
 
 const (
 	seamImport = "github.com/josephburnett/jd/v2/verif/seam"
+	simosImport = "github.com/josephburnett/jd/v2/verif/simos"
 	shimPrefix = "github.com/josephburnett/jd/v2/verif/shim/"
 )
 
@@ -61,6 +62,7 @@ type report struct {
 	MapRangeSites []siteReport `json:"map_range_sites"`
 	Mains         []string     `json:"mains"`
 	ShimmedImport []string     `json:"shimmed_imports"`
+	GlobalsReset  []string     `json:"globals_reset"`
 }
 
 var rep report
@@ -172,11 +174,98 @@ func instrumentMapRanges(relRoot, modDir, pkgPattern string) {
 			changed = true
 			return true
 		})
+		if addGlobalsReset(af, info, i) {
+			addImport(af, "verifsimos", simosImport)
+			changed = true
+		}
 		if changed {
-			addImport(af, "verifseam", seamImport)
+			if usesSeam(af) {
+				addImport(af, "verifseam", seamImport)
+			}
 			writeFile(fset, af, names[i])
 		}
 	}
+}
+
+func usesSeam(af *ast.File) bool {
+	found := false
+	ast.Inspect(af, func(n ast.Node) bool {
+		if se, ok := n.(*ast.SelectorExpr); ok {
+			if id, ok := se.X.(*ast.Ident); ok && id.Name == "verifseam" {
+				found = true
+			}
+		}
+		return !found
+	})
+	return found
+}
+
+// safeInit reports whether re-evaluating a package-level initialiser at the
+// start of every simulated process is harmless: literals, composite literals,
+// identifiers, operators, builtins and conversions, but no other call.
+func safeInit(e ast.Expr, info *types.Info) bool {
+	ok := true
+	ast.Inspect(e, func(n ast.Node) bool {
+		switch c := n.(type) {
+		case *ast.CallExpr:
+			if tv, found := info.Types[c.Fun]; found && (tv.IsType() || tv.IsBuiltin()) {
+				return true
+			}
+			ok = false
+		case *ast.FuncLit:
+			return false // a function value: fine, do not look inside
+		}
+		return ok
+	})
+	return ok
+}
+
+// addGlobalsReset appends to file af a function that puts the package-level
+// variables declared in af back to their initial values, and registers it with
+// the simulator, which calls it before every simulated process: a real process
+// starts with fresh globals, simulated processes share one Go program.
+func addGlobalsReset(af *ast.File, info *types.Info, idx int) bool {
+	var stmts []ast.Stmt
+	for _, d := range af.Decls {
+		gd, ok := d.(*ast.GenDecl)
+		if !ok || gd.Tok != token.VAR {
+			continue
+		}
+		for _, sp := range gd.Specs {
+			vs := sp.(*ast.ValueSpec)
+			for j, name := range vs.Names {
+				if name.Name == "_" {
+					continue
+				}
+				switch {
+				case len(vs.Values) == 0 && vs.Type != nil:
+					// zero value: { var z T; name = z }
+					stmts = append(stmts, &ast.BlockStmt{List: []ast.Stmt{
+						&ast.DeclStmt{Decl: &ast.GenDecl{Tok: token.VAR, Specs: []ast.Spec{&ast.ValueSpec{Names: []*ast.Ident{ast.NewIdent("z")}, Type: vs.Type}}}},
+						&ast.AssignStmt{Lhs: []ast.Expr{ast.NewIdent(name.Name)}, Tok: token.ASSIGN, Rhs: []ast.Expr{ast.NewIdent("z")}},
+					}})
+				case len(vs.Values) == len(vs.Names) && safeInit(vs.Values[j], info):
+					rhs := vs.Values[j]
+					if vs.Type != nil {
+						rhs = &ast.CallExpr{Fun: &ast.ParenExpr{X: vs.Type}, Args: []ast.Expr{rhs}}
+					}
+					stmts = append(stmts, &ast.AssignStmt{Lhs: []ast.Expr{ast.NewIdent(name.Name)}, Tok: token.ASSIGN, Rhs: []ast.Expr{rhs}})
+				}
+			}
+		}
+	}
+	if len(stmts) == 0 {
+		return false
+	}
+	fn := fmt.Sprintf("verifResetGlobals%d", idx)
+	af.Decls = append(af.Decls,
+		&ast.FuncDecl{Name: ast.NewIdent(fn), Type: &ast.FuncType{Params: &ast.FieldList{}}, Body: &ast.BlockStmt{List: stmts}},
+		&ast.FuncDecl{Name: ast.NewIdent("init"), Type: &ast.FuncType{Params: &ast.FieldList{}}, Body: &ast.BlockStmt{List: []ast.Stmt{
+			&ast.ExprStmt{X: &ast.CallExpr{Fun: &ast.SelectorExpr{X: ast.NewIdent("verifsimos"), Sel: ast.NewIdent("OnReset")}, Args: []ast.Expr{ast.NewIdent(fn)}}},
+		}}},
+	)
+	rep.GlobalsReset = append(rep.GlobalsReset, fmt.Sprintf("%s: %d variables", af.Name.Name+"/"+fn, len(stmts)))
+	return true
 }
 
 func addImport(af *ast.File, name, path string) {
